@@ -1035,16 +1035,29 @@ func convToString(v interface{}) string {
 // error - instead of recursing until the stack overflows, which takes the whole process down. A formula can build
 // such a value: `$t = this` stores the data map in one of its own entries.
 func sprint(v interface{}) string {
-	if containsItself(reflect.ValueOf(v), nil) {
+	rv := reflect.ValueOf(v)
+	if rv.Kind() == reflect.Ptr && !rv.IsNil() {
+		rv = rv.Elem() // %v looks through a pointer at the top level only
+	}
+	if containsItself(rv, nil) {
 		panic("can't format a value that contains itself")
 	}
 	return fmt.Sprintf("%v", v)
 }
 
-// containsItself follows maps, slices, arrays and interfaces (what a formula can nest) and reports whether one of
-// the maps or slices on the current path is reached again.
+// containsItself follows what fmt's %v follows - maps, slices, arrays, interfaces and the fields of structs (nested
+// pointers are printed as addresses and end the descent) - and reports whether one of the maps or slices on the
+// current path is reached again.
 func containsItself(rv reflect.Value, path []uintptr) bool {
 	switch rv.Kind() {
+	case reflect.Struct:
+		// a struct handed in by the caller can hold the very map it is stored in
+		for i := 0; i < rv.NumField(); i++ {
+			if containsItself(rv.Field(i), path) {
+				return true
+			}
+		}
+		return false
 	case reflect.Interface:
 		return !rv.IsNil() && containsItself(rv.Elem(), path)
 	case reflect.Map, reflect.Slice:
